@@ -21,7 +21,7 @@ SOLVERS = {
 
 
 class Obligation:
-    def __init__(self, name, assumptions, goal, mode='bv', exact=True, timeout=60, solvers=None, extra_int=None,
+    def __init__(self, name, assumptions, goal, mode='bv', exact=True, timeout=600, solvers=None, extra_int=None,
                  expect='unsat', meta=None, int_goal=None, int_opts=None):
         """prove: assumptions => goal.  mode 'bv' or 'int'.
         expect='sat' turns this into a reachability witness (must be satisfiable)."""
